@@ -50,13 +50,60 @@ Qed.
 
 (* a released non-DATA frame does not touch the credit ledger *)
 Lemma wl_recv_all_send_nodata l q : fsz q = 0%Z -> (forall id es d, q <> QData id es d) ->
+  (forall id es d m, q <> QDataP id es d m) ->
   wl_recv_all l (send q) = (l, true).
 Proof.
-  intros _ Hnd. destruct q; cbn [send wl_recv_all wl_recv]; try reflexivity.
+  intros _ Hnd Hnp. destruct q; cbn [send wl_recv_all wl_recv]; try reflexivity.
   - exfalso. eapply Hnd. reflexivity.
+  - exfalso. eapply Hnp. reflexivity.
   - rewrite wl_recv_all_conts. reflexivity.
   - rewrite wl_recv_all_conts. reflexivity.
 Qed.
+
+(* ---- a DATA frame written in pieces is, for the credit ledger, the frame written whole *)
+Lemma zadd_zadd id x y l : zadd id x (zadd id y l) = zadd id (y + x)%Z l.
+Proof.
+  induction l as [|[k v] r IH]; cbn [zadd].
+  - rewrite N.eqb_refl. reflexivity.
+  - destruct (k =? id) eqn:E; cbn [zadd]; rewrite E; [f_equal; f_equal; lia|rewrite IH; reflexivity].
+Qed.
+
+Lemma len_app {A} (a c : list A) : len (a ++ c) = len a + len c.
+Proof. unfold len. rewrite app_length. lia. Qed.
+
+Lemma wl_two l id es a c :
+  wl_recv_all l [WData id false a; WData id es c] = wl_recv_all l [WData id es (a ++ c)].
+Proof.
+  cbn [wl_recv_all wl_recv l_init l_conn l_adj]. unfold led_window. cbn [l_init l_adj].
+  rewrite zget_zadd_same, zadd_zadd, len_app, N2Z.inj_add.
+  set (A := Z.of_N (len a)). set (C := Z.of_N (len c)). set (w := (l_init l + zget id (l_adj l))%Z).
+  assert (0 <= A)%Z by (unfold A; lia). assert (0 <= C)%Z by (unfold C; lia).
+  f_equal.
+  - f_equal; [lia|f_equal; lia].
+  - replace (l_init l + (zget id (l_adj l) + - A))%Z with (w - A)%Z by (unfold w; lia).
+    destruct (A <=? l_conn l)%Z eqn:E1, (A <=? w)%Z eqn:E2, (C <=? l_conn l - A)%Z eqn:E3, (C <=? w - A)%Z eqn:E4,
+             (A + C <=? l_conn l)%Z eqn:E5, (A + C <=? w)%Z eqn:E6; cbn [andb]; try reflexivity;
+      repeat match goal with
+             | H : (_ <=? _)%Z = true |- _ => apply Z.leb_le in H
+             | H : (_ <=? _)%Z = false |- _ => apply Z.leb_gt in H
+             end; lia.
+Qed.
+
+Lemma wl_cons_congr l f r r' : (forall l1, wl_recv_all l1 r = wl_recv_all l1 r') ->
+  wl_recv_all l (f :: r) = wl_recv_all l (f :: r').
+Proof. intro H. cbn [wl_recv_all]. destruct (wl_recv l f) as [l1 a1]. rewrite H. reflexivity. Qed.
+
+Lemma wl_pieces : forall fuel m id d es l,
+  wl_recv_all l (wdata_pieces fuel m id d es) = wl_recv_all l [WData id es d].
+Proof.
+  induction fuel as [|k IH]; intros m id d es l; cbn [wdata_pieces]; [reflexivity|].
+  destruct ((0 <? m) && (m <? len d)); [|reflexivity].
+  rewrite (wl_cons_congr l _ _ [WData id es (dropN m d)] (fun l1 => IH m id (dropN m d) es l1)).
+  rewrite wl_two. unfold takeN, dropN. rewrite firstn_skipn. reflexivity.
+Qed.
+
+Lemma wl_send_datap l id es d m : wl_recv_all l (send (QDataP id es d m)) = wl_recv_all l (send (QData id es d)).
+Proof. cbn [send]. apply wl_pieces. Qed.
 
 Section Gate.
   Hypothesis Hgate : emit_conn_blocks_on_gt = true /\ emit_stream_blocks_on_gt = true.
@@ -88,8 +135,12 @@ Section Gate.
         assert (Hone : exists l1, wl_recv_all l (send f) = (l1, true) /\
                   l_conn l1 = (l_conn l - fsz f)%Z /\ led_window l1 (q_id f) = (led_window l (q_id f) - fsz f)%Z /\
                   l_init l1 = l_init l /\ (forall s', s' <> q_id f -> led_window l1 s' = led_window l s')).
-        { destruct f as [id es d| | | |].
-          - cbn [q_id fsz] in *. cbn [send wl_recv_all wl_recv].
+        { assert (Hdata : forall id es d, q_id f = id -> fsz f = Z.of_N (len d) ->
+                    wl_recv_all l (send f) = wl_recv_all l [WData id es d] ->
+                    exists l1, wl_recv_all l (send f) = (l1, true) /\
+                      l_conn l1 = (l_conn l - fsz f)%Z /\ led_window l1 (q_id f) = (led_window l (q_id f) - fsz f)%Z /\
+                      l_init l1 = l_init l /\ (forall s', s' <> q_id f -> led_window l1 s' = led_window l s')).
+          { intros id es d Hq Hsz Hsend. rewrite Hsend, Hq, Hsz in *. cbn [wl_recv_all wl_recv].
             eexists. split.
             + assert (E1 : (Z.of_N (len d) <=? l_conn l)%Z = true) by (apply Z.leb_le; lia).
               assert (E2 : (Z.of_N (len d) <=? led_window l id)%Z = true) by (apply Z.leb_le; lia).
@@ -97,8 +148,11 @@ Section Gate.
             + cbn [l_conn l_init]. unfold led_window. cbn [l_init l_adj].
               repeat split; try lia.
               * rewrite zget_zadd_same. lia.
-              * intros s' Hn. rewrite zget_zadd_other by exact Hn. reflexivity.
-          - exists l. rewrite wl_recv_all_send_nodata by (reflexivity || discriminate). cbn [fsz]. repeat split; try lia. 
+              * intros s' Hn. rewrite zget_zadd_other by exact Hn. reflexivity. }
+          destruct f as [id es d|id es d m| | | |].
+          - apply (Hdata id es d); reflexivity.
+          - apply (Hdata id es d); [reflexivity|reflexivity|apply wl_send_datap].
+          - exists l. rewrite wl_recv_all_send_nodata by (reflexivity || discriminate). cbn [fsz]. repeat split; try lia.
           - exists l. rewrite wl_recv_all_send_nodata by (reflexivity || discriminate). cbn [fsz]. repeat split; try lia.
           - exists l. rewrite wl_recv_all_send_nodata by (reflexivity || discriminate). cbn [fsz]. repeat split; try lia.
           - exists l. rewrite wl_recv_all_send_nodata by (reflexivity || discriminate). cbn [fsz]. repeat split; try lia. }
